@@ -12,14 +12,14 @@ PROPERTY = "C08"
 ALPHABET = ["C", "N", "O", "*", ""]
 NODE_KEYS = ["element", "charge", "aromatic", "hcount"]
 EDGE_KEYS = ["order"]
-POOL_IDS = [7, 3, 12, 5, 9, 20]
+POOL_IDS = [7, 3, 12, 5, 9, 20, 15, 1]
 
 META = dict(
     bounds=dict(
         quick="every graph on <=3 nodes with all relabelings (solver-chosen bijection onto an id pool x solver-chosen "
               "insertion order), 4-node graphs with <=4 bonds under all bijections and reversed insertion order, C4 and "
               "K4-e with fixed labels; element in {C,N}, hcount in {0,1}, order in {1,2}; back-ends generic, wl, morgan, "
-              "nauty; rule-like graphs with pair-valued bond orders (3-chain, triangle, 4-ring; orders in {1,2}x{1,2}, all-carbon in the quick tier); both copies of the module; soundness/completeness on all pairs of equal-size graphs <=3 nodes",
+              "nauty; rule-like graphs with pair-valued bond orders (3-chain, triangle, 4-ring; orders in {1,2}x{1,2}, all-carbon in the quick tier); the two-fold symmetric all-carbon dimer of the triangle (bicyclopropyl skeleton, 6 atoms, mirrored symbolic bond orders) under every numbering [thorough: the dimers of the other rooted 3-atom graphs and one 8-atom dimer with single bonds]; both copies of the module; soundness/completeness on all pairs of equal-size graphs <=3 nodes",
         thorough="4-node graphs with all insertion orders, 5-node graphs (<=5 bonds) and C5, C6, K2,3 under solver-chosen "
                  "bijections; pairs up to 4 nodes",
     ),
@@ -66,6 +66,21 @@ def faithful_bad(g, cg):
     return NOT(f)
 
 
+def build_dimer(E, pre, k, half_edges, orders=(1, 2)):
+    """two copies of a rooted graph on k all-carbon atoms (root = atom 1) joined root to root; the bond orders of a copy are
+    symbolic and shared by the other copy, so the graph keeps its two-fold symmetry: every orbit has two atoms and
+    refinement ends with several cells of equal size"""
+    g = nx.Graph()
+    for v in range(1, 2 * k + 1):
+        g.add_node(v, element="C", charge=0, aromatic=False, hcount=0)
+    for u, v in half_edges:
+        o = E.choice("%so%d_%d" % (pre, u, v), list(orders)) if len(orders) > 1 else orders[0]
+        g.add_edge(u, v, order=o)
+        g.add_edge(u + k, v + k, order=o)
+    g.add_edge(1, k + 1, order=E.choice("%sob" % pre, list(orders)) if len(orders) > 1 else orders[0])
+    return g
+
+
 def build(E, pre, n, edges, fixed=False, noh=False, pairs=False, mono=False):
     if fixed:
         g = nx.Graph()
@@ -83,9 +98,9 @@ def build(E, pre, n, edges, fixed=False, noh=False, pairs=False, mono=False):
     return g
 
 
-def h_canon(E, n, edges, backend, copy, relab, fixed=False, noh=False, pairs=False, mono=False):
+def h_canon(E, n, edges, backend, copy, relab, fixed=False, noh=False, pairs=False, mono=False, dimer=0):
     GC, CG = canon_cls(copy)
-    g = build(E, "g", n, edges, fixed, noh, pairs, mono)
+    g = build_dimer(E, "g", dimer, edges, (1, 2) if dimer <= 3 else (1,)) if dimer else build(E, "g", n, edges, fixed, noh, pairs, mono)
     canon = GC(backend=backend)
     cg1 = canon.make_canonical_graph(g)
     sig1 = canon.canonical_signature(g)
@@ -123,7 +138,7 @@ def h_canon(E, n, edges, backend, copy, relab, fixed=False, noh=False, pairs=Fal
         s1, s2 = SynGraph(g, canon), SynGraph(g3, canon)
         E.check(not (s1 == s2 and hash(s1) == hash(s2)), "exact-backend-syngraph-equal-for-isomorphic-graphs", inv)
     # the same canonicaliser object, the same graph object, edited in place (size unchanged) in between
-    if not fixed and not pairs and n >= 1:
+    if not fixed and not pairs and not dimer and n >= 1:
         c2 = GC(backend=backend)
         c2.canonical_signature(g)
         v0 = list(g.nodes)[0]
@@ -187,6 +202,12 @@ def shards(tier, seed):
         for es in all_shapes(5, max_edges=5):
             if len(es) >= 4:
                 sh.append(dict(h="canon", params=dict(n=5, edges=es, backend="nauty", copy="Canon", relab="rev", fixed=True)))
+    # two-fold symmetric dimers of rooted three-atom graphs (6 atoms) under every numbering [thorough: of one rooted
+    # four-atom graph, 8 atoms, reversed insertion order]
+    for half in ([[1, 2], [1, 3], [2, 3]],) + (() if q else ([[1, 2], [2, 3]], [[1, 2], [1, 3]])):
+        sh.append(dict(h="canon", params=dict(n=6, edges=half, backend="nauty", copy="Canon", relab="rev", dimer=3)))
+    if not q:
+        sh.append(dict(h="canon", params=dict(n=8, edges=[[1, 2], [1, 3], [2, 3], [2, 4]], backend="nauty", copy="Canon", relab="rev", dimer=4)))
     # rule / ITS-like graphs (pair-valued bond orders) on the triangle, the 3-chain and the 4-ring
     for n, es in ((3, [[1, 2], [2, 3]]), (3, [[1, 2], [1, 3], [2, 3]]), (4, [[1, 2], [2, 3], [3, 4], [1, 4]])):
         for be in (("nauty",) if q else ("nauty", "wl")):
